@@ -26,15 +26,16 @@ def run(tier, replay=None):
             seen.add(k)
             uniq.append(c)
     deep.replays = uniq
-    for r in (grid, hist, deep):
+    big = C.run_tlc("MC_TimeTrigger", "MC_TimeTrigger_big.cfg", "c16_big", workers=2, timeout=600, coverage=False)
+    for r in (grid, hist, deep, big):
         if r.inv_violated:
             run.mismatch({"kind": "model", "invariant": r.inv_violated}, {"tlc": r.error_text[:4000]})
             return run.finish()
         run.add_tlc(r)
     wd = C.workdir("c16")
     gp, hp = os.path.join(wd, "grid.ndjson"), os.path.join(wd, "all.ndjson")
-    C.write_ndjson(gp, grid.replays)
-    C.write_ndjson(hp, grid.replays + hist.replays + deep.replays)
+    C.write_ndjson(gp, grid.replays + big.replays)
+    C.write_ndjson(hp, grid.replays + big.replays + hist.replays + deep.replays)
     run.extra["simulated_long_histories"] = len(deep.replays)
     weak = skipped = 0
     zones = [(z, "fixed") for z in FIXED] + [(z, "dst") for z in (DST if tier == "thorough" else DST[:4])]
